@@ -574,4 +574,290 @@ theorem iroot_vals_get (P : Prim) (del : Bool) (s : St) (a : Bytes) :
   simp [flushAccts, finalise]
 
 
+
+open YouVerif.Common.Rlp
+
+/-! ## numbers and record shapes round-trip -/
+
+theorem natToBE_zero : natToBE 0 = [] := by rw [natToBE]; simp
+theorem natToBE_pos (n : Nat) (h : n ≠ 0) : natToBE n = natToBE (n / 256) ++ [UInt8.ofNat (n % 256)] := by
+  rw [natToBE]; simp [h]
+
+theorem beToNat_snoc (l : Bytes) (b : UInt8) : beToNat (l ++ [b]) = beToNat l * 256 + b.toNat := by
+  simp [beToNat, List.foldl_append]
+
+theorem beToNat_natToBE (n : Nat) : beToNat (natToBE n) = n := by
+  induction n using Nat.strongRecOn with
+  | _ n ih =>
+    by_cases h : n = 0
+    · subst h; rw [natToBE_zero]; rfl
+    · rw [natToBE_pos n h, beToNat_snoc, ih (n / 256) (by omega)]
+      have : (UInt8.ofNat (n % 256)).toNat = n % 256 := by
+        simp [UInt8.toNat_ofNat']
+      rw [this]; omega
+
+theorem natToBE_head (n : Nat) : (natToBE n).head? ≠ some 0 := by
+  induction n using Nat.strongRecOn with
+  | _ n ih =>
+    by_cases h : n = 0
+    · subst h; rw [natToBE_zero]; simp
+    · rw [natToBE_pos n h]
+      by_cases h2 : n / 256 = 0
+      · rw [h2, natToBE_zero]
+        simp only [List.nil_append, List.head?_cons, ne_eq, Option.some.injEq]
+        intro hz
+        have : (UInt8.ofNat (n % 256)).toNat = n % 256 := by
+          simp [UInt8.toNat_ofNat']
+        rw [hz] at this
+        simp at this
+        omega
+      · have := ih (n / 256) (by omega)
+        cases hl : natToBE (n / 256) with
+        | nil =>
+          have h3 := beToNat_natToBE (n / 256)
+          rw [hl] at h3
+          exact absurd h3.symm h2
+        | cons x t => rw [hl] at this; simpa using this
+
+@[simp] theorem pN_iN (n : Nat) : pN (iN n) = some n := by
+  simp [pN, iN, natToBE_head, beToNat_natToBE]
+
+@[simp] theorem pB_iB (b : Bytes) : pB (iB b) = some b := rfl
+
+theorem mapM_map_rt {α β : Type} (f : α → β) (g : β → Option α) (h : ∀ x, g (f x) = some x) (l : List α) :
+    (l.map f).mapM g = some l := by
+  induction l with
+  | nil => rfl
+  | cons a t ih => simp [List.mapM_cons, h a, ih]
+
+@[simp] theorem dlg_rt (d : Dlg) : dlgOfItem (dlgItem d) = some d := by
+  simp [dlgOfItem, dlgItem, iL]
+
+@[simp] theorem bytesList_rt (l : List Bytes) : bytesListOfItem (bytesListItem l) = some l := by
+  simp [bytesListOfItem, bytesListItem, iL, mapM_map_rt iB pB pB_iB]
+
+@[simp] theorem kstat_rt (k : KStat) : kstatOfItem (kstatItem k) = some k := by
+  simp [kstatOfItem, kstatItem, iL]
+
+@[simp] theorem stat_rt (s : Stat) : statOfItem (statItem s) = some s := by
+  simp [statOfItem, statItem, iL]
+
+@[simp] theorem wrec_rt (w : WRec) : wrecOfItem (wrecItem w) = some w := by
+  simp [wrecOfItem, wrecItem, iL]
+
+@[simp] theorem queue_rt (q : List WRec) : queueOfItem (queueItem q) = some q := by
+  simp [queueOfItem, queueItem, iL, mapM_map_rt wrecItem wrecOfItem wrec_rt]
+
+@[simp] theorem srec_rt (r : SRec) : srecOfItem (srecItem r) = some r := by
+  simp [srecOfItem, srecItem, iL]
+
+/-- the validator record: everything but the cache flag `deleted` is on the wire -/
+theorem val_rt (v : Val) : valOfItem (valItem v) = some { v with deleted := false } := by
+  simp [valOfItem, valItem, iL, mapM_map_rt dlgItem dlgOfItem dlg_rt]
+  cases v.expelled <;> rfl
+
+
+
+open YouVerif.Common.Rlp
+
+
+/-! ## commit and reopen -/
+
+theorem enc_list_ne_nil (l : List Item) : enc (iL l) ≠ [] := by
+  unfold enc iL
+  rw [YouVerif.Common.Rlp.encode]
+  simp only [YouVerif.Common.Rlp.encodeLength]
+  split <;> simp
+
+/-- the pending-relationship leaf agrees with the in-memory list whenever the list is not dirty -/
+def CohR (s : St) : Prop :=
+  s.relatsDirty = false → (s.t.stk.relats = enc (bytesListItem s.relats) ∨ (s.t.stk.relats = [] ∧ s.relats = []))
+
+theorem flushRelats_saved (s : St) (h : CohR s) :
+    ((flushRelats s).t.stk.relats = enc (bytesListItem (flushRelats s).relats) ∨
+      ((flushRelats s).t.stk.relats = [] ∧ (flushRelats s).relats = [])) := by
+  unfold flushRelats
+  by_cases hd : s.relatsDirty = true
+  · simp [hd]
+  · have hd' : s.relatsDirty = false := by simpa using hd
+    simp only [hd, if_false]
+    exact h hd'
+
+theorem foldl_flushVal_frame2 (del : Bool) (l : List Bytes) (s : St) :
+    (l.foldl (flushVal del) s).relats = s.relats ∧ (l.foldl (flushVal del) s).relatsDirty = s.relatsDirty
+    ∧ (l.foldl (flushVal del) s).queue = s.queue ∧ (l.foldl (flushVal del) s).db = s.db ∧ (l.foldl (flushVal del) s).acctU = s.acctU := by
+  induction l generalizing s with
+  | nil => simp
+  | cons a t ih =>
+    simp only [List.foldl_cons]
+    obtain ⟨b1, b2, b3, b4, b5⟩ := ih (flushVal del s a)
+    have h : (flushVal del s a).relats = s.relats ∧ (flushVal del s a).relatsDirty = s.relatsDirty ∧ (flushVal del s a).queue = s.queue
+        ∧ (flushVal del s a).db = s.db ∧ (flushVal del s a).acctU = s.acctU := by
+      unfold flushVal
+      cases aget s.vals a with
+      | none => simp
+      | some v => by_cases h : (v.deleted || (del && v.isInvalid)) = true <;> simp [h]
+    exact ⟨b1.trans h.1, b2.trans h.2.1, b3.trans h.2.2.1, b4.trans h.2.2.2.1, b5.trans h.2.2.2.2⟩
+
+theorem iroot_relats_saved (P : Prim) (del : Bool) (s : St) (h : CohR s) :
+    ((iroot P del s).t.stk.relats = enc (bytesListItem (iroot P del s).relats) ∨
+      ((iroot P del s).t.stk.relats = [] ∧ (iroot P del s).relats = [])) := by
+  unfold iroot
+  apply flushRelats_saved
+  unfold CohR
+  obtain ⟨_, b2, _⟩ := foldl_flushVal_frame del (flushAccts P (finalise del s)).valD (flushAccts P (finalise del s))
+  obtain ⟨c1, c2, _⟩ := foldl_flushVal_frame2 del (flushAccts P (finalise del s)).valD (flushAccts P (finalise del s))
+  simp only [flushRecs, saveSingles, flushVals]
+  rw [b2, c1, c2]
+  simpa [flushAccts, finalise, CohR] using h
+
+theorem flushRelats_frame2 (s : St) : (flushRelats s).index = s.index ∧ (flushRelats s).stat = s.stat ∧ (flushRelats s).queue = s.queue
+    ∧ (flushRelats s).vals = s.vals ∧ (flushRelats s).valD = s.valD ∧ (flushRelats s).recs = s.recs ∧ (flushRelats s).recD = s.recD := by
+  unfold flushRelats; split <;> simp
+
+/-- index, statistics and withdraw queue are saved on every IntermediateRoot -/
+theorem iroot_singles (P : Prim) (del : Bool) (s : St) :
+    (iroot P del s).t.val.index = enc (bytesListItem (sortKeys (iroot P del s).index)) ∧
+    (iroot P del s).t.val.stat = enc (statItem (iroot P del s).stat) ∧
+    (iroot P del s).t.val.queue = enc (queueItem (iroot P del s).queue) := by
+  unfold iroot
+  obtain ⟨f1, f2, f3, _⟩ := flushRelats_frame2 (flushRecs (saveSingles (flushVals del (flushAccts P (finalise del s)))))
+  rw [(flushRelats_frame _).2.2, f1, f2, f3]
+  simp [flushRecs, saveSingles]
+
+/-- **Commit then New**: the reopened state holds exactly the three committed tries, and the statistics, withdraw queue,
+validator index and pending relationships it loads are the live ones -/
+theorem reopen_loads (P : Prim) (del : Bool) (s : St) (hrt : ∀ i, dec (enc i) = some i) (hr : CohR s) :
+    openSt (commit P del s).db (roots P (commit P del s)) =
+      some { db := (commit P del s).db, t := (commit P del s).t, index := sortKeys (commit P del s).index,
+             stat := (commit P del s).stat, queue := (commit P del s).queue, relats := (commit P del s).relats } := by
+  obtain ⟨i1, i2, i3⟩ := iroot_singles P del s
+  have hrel := iroot_relats_saved P del s hr
+  have ht : (commit P del s).t = (iroot P del s).t := rfl
+  have hst : (commit P del s).stat = (iroot P del s).stat := rfl
+  have hq : (commit P del s).queue = (iroot P del s).queue := rfl
+  have hi : (commit P del s).index = (iroot P del s).index := rfl
+  have hrl : (commit P del s).relats = (iroot P del s).relats := rfl
+  have hroots : roots P (commit P del s) = roots P (iroot P del s) := rfl
+  have ha : aget (commit P del s).db.acctT (roots P (iroot P del s)).root = some (iroot P del s).t.acct := by
+    simp [commit, aget_aput]
+  have hv : aget (commit P del s).db.valT (roots P (iroot P del s)).valRoot = some (iroot P del s).t.val := by
+    simp [commit, aget_aput]
+  have hk : aget (commit P del s).db.stkT (roots P (iroot P del s)).stakingRoot = some (iroot P del s).t.stk := by
+    simp [commit, aget_aput]
+  have e1 : (iroot P del s).t.val.index ≠ [] := by rw [i1]; exact enc_list_ne_nil _
+  have e2 : (iroot P del s).t.val.stat ≠ [] := by rw [i2]; exact enc_list_ne_nil _
+  have e3 : (iroot P del s).t.val.queue ≠ [] := by rw [i3]; exact enc_list_ne_nil _
+  rw [hroots, ht, hst, hq, hi, hrl]
+  unfold openSt
+  rcases hrel with hrel | ⟨hrel1, hrel2⟩
+  · have e4 : (iroot P del s).t.stk.relats ≠ [] := by rw [hrel]; exact enc_list_ne_nil _
+    simp only [ha, hv, hk, e1, e2, e3, e4, if_false, Option.bind_eq_bind, Option.bind_some, Option.pure_def]
+    rw [i1, i2, i3, hrel]
+    simp only [hrt, Option.bind_some, bytesList_rt, stat_rt, queue_rt]
+  · simp only [ha, hv, hk, e1, e2, e3, hrel1, if_true, if_false, Option.bind_eq_bind, Option.bind_some, Option.pure_def]
+    rw [i1, i2, i3]
+    simp only [hrt, Option.bind_some, bytesList_rt, stat_rt, queue_rt, hrel2]
+
+
+
+
+/-- leaf of a clean live validator -/
+def valLeaf' (v : Val) : Bytes := if v.deleted then [] else enc (valItem v)
+
+def CohV (s : St) : Prop := ∀ a v, aget s.vals a = some v → a ∉ s.valD → cget s.t.val.vals a = valLeaf' v
+def CohS (s : St) : Prop := ∀ k r, aget s.recs k = some r → k ∉ s.recD → cget s.t.stk.recs k = enc (srecItem r)
+
+theorem valLeaf'_vflag (del : Bool) (v : Val) : valLeaf' (vflag del v) = valLeaf del v := by
+  unfold valLeaf' valLeaf
+  by_cases h : wd del v = true
+  · rw [vflag_pos h]; simp [h, markDel]
+  · rw [vflag_neg h]
+    have hd : v.deleted = false := by
+      cases hv : v.deleted with
+      | false => rfl
+      | true => exact absurd (by simp [wd, hv]) h
+    simp [h, hd]
+
+theorem iroot_vals_live (P : Prim) (del : Bool) (s : St) :
+    (iroot P del s).vals = (s.valD.foldl (flushVal del) (flushAccts P (finalise del s))).vals := by
+  unfold iroot
+  rw [(flushRelats_frame2 _).2.2.2.1]
+  simp [flushRecs, saveSingles, flushVals, flushAccts, finalise]
+
+/-- after IntermediateRoot every live validator is what the validator trie holds -/
+theorem iroot_cohV (P : Prim) (del : Bool) (s : St) (h : CohV s) (a : Bytes) (v : Val)
+    (hv : aget (iroot P del s).vals a = some v) : cget (iroot P del s).t.val.vals a = valLeaf' v := by
+  rw [iroot_vals_live, (foldl_flushVal_get del _ _ a).1] at hv
+  rw [iroot_vals_get]
+  have hs : (flushAccts P (finalise del s)).vals = s.vals := by simp [flushAccts, finalise]
+  rw [hs] at hv
+  by_cases hd : a ∈ s.valD
+  · rw [if_pos hd] at hv
+    rw [if_pos hd]
+    cases h0 : aget s.vals a with
+    | none => rw [h0] at hv; simp at hv
+    | some v0 =>
+      rw [h0] at hv
+      simp only [Option.map_some, Option.some.injEq] at hv
+      rw [← hv, valLeaf'_vflag]
+      simp
+  · rw [if_neg hd] at hv
+    rw [if_neg hd]
+    exact h a v hv hd
+
+theorem val_undeleted (v : Val) (h : v.deleted = false) : ({ v with deleted := false } : Val) = v := by
+  cases v; simp_all
+
+/-- **reopened validators = live validators** -/
+theorem reopen_getVal (P : Prim) (del : Bool) (s : St) (hrt : ∀ i, dec (enc i) = some i) (h : CohV s) (s' : St)
+    (ht : s'.t = (commit P del s).t) (hl : s'.vals = []) (a : Bytes) : getVal s' a = getVal (commit P del s) a := by
+  have hcv : (commit P del s).vals = (iroot P del s).vals := rfl
+  have hct : (commit P del s).t = (iroot P del s).t := rfl
+  unfold getVal
+  rw [hl, ht, hcv, hct]
+  simp only [aget]
+  cases hv : aget (iroot P del s).vals a with
+  | none => rfl
+  | some v =>
+    have hleaf := iroot_cohV P del s h a v hv
+    simp only [hleaf]
+    unfold valLeaf'
+    by_cases hd : v.deleted = true
+    · simp [hd]
+    · have hd' : v.deleted = false := by simpa using hd
+      have hne : enc (valItem v) ≠ [] := enc_list_ne_nil _
+      simp only [hd', Bool.false_eq_true, if_false, hne, decVal, hrt, Option.bind_some, val_rt, val_undeleted v hd']
+
+theorem iroot_recs_live (P : Prim) (del : Bool) (s : St) : (iroot P del s).recs = s.recs := by
+  unfold iroot
+  rw [(flushRelats_frame2 _).2.2.2.2.2.1]
+  simp only [flushRecs, saveSingles, flushVals]
+  rw [(foldl_flushVal_frame del _ _).2.2.2.1]
+  simp [flushAccts, finalise]
+
+theorem iroot_cohS (P : Prim) (del : Bool) (s : St) (h : CohS s) (k : Bytes) (r : SRec)
+    (hr : aget (iroot P del s).recs k = some r) : cget (iroot P del s).t.stk.recs k = enc (srecItem r) := by
+  rw [iroot_recs_live] at hr
+  rw [iroot_recs_get]
+  by_cases hd : k ∈ s.recD
+  · rw [if_pos hd, hr]; rfl
+  · rw [if_neg hd]; exact h k r hr hd
+
+/-- **reopened staking records = live staking records** -/
+theorem reopen_getSRec (P : Prim) (del : Bool) (s : St) (hrt : ∀ i, dec (enc i) = some i) (h : CohS s) (s' : St)
+    (ht : s'.t = (commit P del s).t) (hl : s'.recs = []) (k : Bytes) : getSRec s' k = getSRec (commit P del s) k := by
+  have hcv : (commit P del s).recs = (iroot P del s).recs := rfl
+  have hct : (commit P del s).t = (iroot P del s).t := rfl
+  unfold getSRec
+  rw [hl, ht, hcv, hct]
+  simp only [aget]
+  cases hv : aget (iroot P del s).recs k with
+  | none => rfl
+  | some r =>
+    have hleaf := iroot_cohS P del s h k r hv
+    have hne : enc (srecItem r) ≠ [] := enc_list_ne_nil _
+    simp only [hleaf, hne, if_false, decSRec, hrt, Option.bind_some, srec_rt]
+
+
 end YouVerif.C10
